@@ -49,6 +49,7 @@ THEOREMS = [P + n for n in [
     "general_extract_specialises",
     "generated_dispatch",
     "generated_identifier_sites",
+    "generated_quoting_overrides",
     "generated_wf_byte_raw",
     "generated_wf",
     "generated_wf_fast",
@@ -437,6 +438,59 @@ def identifier_sites() -> list:
     return sorted(out)
 
 
+QUOTING_METHODS = {"identifier_sql", "literal_sql", "escape_str", "sanitize_comment", "maybe_comment", "_replace_line_breaks",
+                   "national_sql", "rawstring_sql", "bytestring_sql", "unicodestring_sql", "heredoc_sql", "hexstring_sql",
+                   "bitstring_sql", "comment_sql"}
+QUOTING_NODES = {"Literal", "Identifier", "National", "RawString", "ByteString", "UnicodeString", "Heredoc", "HexString", "BitString"}
+DELIM_ATTRS = {"_identifier_start", "_identifier_end", "QUOTE_START", "QUOTE_END", "IDENTIFIER_START", "IDENTIFIER_END",
+               "BYTE_START", "BYTE_END", "UNICODE_START", "UNICODE_END", "_escaped_quote_end", "_escaped_identifier_end",
+               "_escaped_byte_quote_end"}
+
+
+def quoting_overrides() -> tuple:
+    """(overrides, delimiter sites, TRANSFORMS entries) by ast over sqlglot/generator.py, generators/*.py, dialects/*.py:
+    every dialect-generator override of a quoting method ("delegates" when its body is `return super().m(...)`, else a
+    hash of its ast), every function that touches a quote / identifier delimiter attribute, every TRANSFORMS entry for a
+    literal-like node."""
+    import glob
+    import hashlib
+
+    root = os.path.join(REPO, "sqlglot")
+    files = sorted(glob.glob(os.path.join(root, "generators", "*.py")) + glob.glob(os.path.join(root, "dialects", "*.py")))
+    files.append(os.path.join(root, "generator.py"))
+    ovr, sites, trf = [], [], []
+    for path in files:
+        rel = os.path.relpath(path, root)
+        tree = ast.parse(open(path, encoding="utf-8").read())
+
+        def walk(node, q):
+            for chd in ast.iter_child_nodes(node):
+                if isinstance(chd, ast.ClassDef):
+                    walk(chd, q + [chd.name])
+                elif isinstance(chd, (ast.FunctionDef, ast.AsyncFunctionDef)):
+                    nm = ".".join(q + [chd.name])
+                    if chd.name in QUOTING_METHODS and rel != "generator.py" and q:
+                        body = [b for b in chd.body
+                                if not (isinstance(b, ast.Expr) and isinstance(b.value, ast.Constant) and isinstance(b.value.value, str))]
+                        pure = len(body) == 1 and isinstance(body[0], ast.Return) and body[0].value is not None \
+                            and ast.unparse(body[0].value).startswith(f"super().{chd.name}(")
+                        tag = "delegates" if pure else hashlib.sha256(ast.dump(chd).encode()).hexdigest()[:12]
+                        ovr.append(f"{rel}:{nm}:{tag}")
+                    if {n.attr for n in ast.walk(chd) if isinstance(n, ast.Attribute)} & DELIM_ATTRS:
+                        sites.append(f"{rel}:{nm}")
+                    walk(chd, q + [chd.name])
+                elif isinstance(chd, ast.Assign) and isinstance(chd.value, ast.Dict) and \
+                        any(isinstance(tg, ast.Name) and tg.id == "TRANSFORMS" for tg in chd.targets):
+                    for k, v in zip(chd.value.keys, chd.value.values):
+                        if isinstance(k, ast.Attribute) and k.attr in QUOTING_NODES:
+                            trf.append(f"{rel}:{'.'.join(q)}:{k.attr}:{ast.unparse(v)}")
+                else:
+                    walk(chd, q)
+
+        walk(tree, [])
+    return sorted(ovr), sorted(set(sites)), sorted(trf)
+
+
 def translate(chk: Check) -> str:
     lines = [
         "-- GENERATED by vf/props/c04.py from the live tokenizer cores / generator objects of every dialect and the ast of",
@@ -532,6 +586,12 @@ def translate(chk: Check) -> str:
     sites = identifier_sites()
     lines.append("-- every Identifier(...) construction in sqlglot/expressions/*.py; anything but to_identifier bypasses the automatic quoting")
     lines.append("def identifierSites : List String := [" + ", ".join(lean_str(x) for x in sites) + "]")
+    ovr, dsites, trf = quoting_overrides()
+    lines.append("-- dialect-generator overrides of quoting methods, functions touching delimiter attributes, TRANSFORMS of literal-like nodes (ast)")
+    lines.append("def quotingOverrides : List String := [" + ", ".join(lean_str(x) for x in ovr) + "]")
+    lines.append("def delimiterSites : List String := [" + ", ".join(lean_str(x) for x in dsites) + "]")
+    lines.append("def literalTransforms : List String := [" + ", ".join(lean_str(x) for x in trf) + "]")
+    chk.cov["quoting_overrides"] = {"overrides": ovr, "delimiter_sites": dsites, "transforms": trf}
     lines.append("end SqlglotModel.Generated.C04")
     chk.cov["identifier_sites"] = sites
     chk.cov["dialects_translated"] = len(entries)
@@ -651,6 +711,7 @@ def correspond(chk: Check) -> list:
                     chk.count("extract:" + r.split(" ")[0])
                     chk.case(("x", key, s), nontrivial=len(s) > 0)
                 for v in values:
+                    extra = []
                     if kind == "str":
                         g = gen
                         if rng.random() < 0.5:
@@ -673,8 +734,33 @@ def correspond(chk: Check) -> list:
                             continue
                         real = out[1:-1]
                         lines.append(json.dumps({"op": "ident", **ref, "v": cps(v)}))
+                        if len(v) <= 10:
+                            # every Identifier flag a parser can set: the override (T-SQL: #/## marker inside the brackets) may only
+                            # add a marker in front of what the base identifier_sql writes
+                            for fk in id_flag_kinds():
+                                flag = fk.split("-", 1)[1]
+                                b = gen.identifier_sql(exp.Identifier(this="p", quoted=True, **{flag: True}))
+                                o2 = gen.identifier_sql(exp.Identifier(this=v, quoted=True, **{flag: True}))
+                                st_, en_ = gen._identifier_start, gen._identifier_end
+                                if not (b.startswith(st_) and b.endswith("p" + en_)):
+                                    chk.correspondence_broken("flagged identifier is not start + marker + name + end",
+                                                              {"dialect": label, "flag": flag, "impl": b})
+                                    continue
+                                pre = b[:-len("p" + en_)]
+                                if not (o2.startswith(pre) and o2.endswith(en_)):
+                                    chk.correspondence_broken("flagged identifier is not start + marker + name + end",
+                                                              {"dialect": label, "flag": flag, "v": v, "impl": o2})
+                                    continue
+                                extra.append((json.dumps({"op": "ident", **ref, "v": cps(v)}),
+                                              show_cps(o2[len(pre):len(o2) - len(en_)]),
+                                              (f"identifier_sql({flag})", label, kind, k, v)))
+                                chk.count("escape:flagged-identifier")
                     expect.append(show_cps(real))
                     meta.append(("escape", label, kind, k, v))
+                    for ln_, ex_, me_ in extra:
+                        lines.append(ln_)
+                        expect.append(ex_)
+                        meta.append(me_)
                     if kind == "str" and len(v) <= 12:
                         _, exp, *_ = sg()
                         out = gen.rawstring_sql(exp.RawString(this=v))
@@ -882,6 +968,9 @@ def build(kind: str, v: str, variant: int):
         return (exp.Literal.string(v) if variant % 2 == 0 else exp.convert(v)), ("STRING",)
     if kind == "identifier":
         return exp.to_identifier(v, quoted=True), ("IDENTIFIER",)
+    if kind.startswith("identifier-"):
+        # every flag the parsers can set on an Identifier (T-SQL: temporary / global_ for [#t] / [##t])
+        return exp.Identifier(this=v, quoted=True, **{kind.split("-", 1)[1]: True}), ("IDENTIFIER",)
     if kind == "national":
         return exp.National(this=v), ("NATIONAL_STRING", "STRING")
     if kind == "raw":
@@ -951,11 +1040,12 @@ def oracle(d, kind: str, v: str, opts: dict, variant: int = 0):
     if len(got) != len(want):
         return "extra-tokens", f"{sql!r} lexes to {len(got)} tokens {got[:6]}, the same expression for {BASELINE!r} to {len(want)}"
     for (ty0, tx0), (ty1, tx1) in zip(want, got):
-        if ty0 in types and tx0 == BASELINE:
+        marker = tx0[:-len(BASELINE)] if tx0.endswith(BASELINE) else None
+        if ty0 in types and marker is not None and marker.strip("#") == "":
             if ty1 != ty0:
                 return "extra-tokens", f"{sql!r}: token {ty1} where {ty0} was expected"
-            if tx1 != v:
-                return "wrong-text", f"{sql!r} lexes back to the value {tx1!r}, not {v!r}"
+            if tx1 != marker + v:
+                return "wrong-text", f"{sql!r} lexes back to the value {tx1!r}, not {marker + v!r}"
         elif (ty0, tx0) != (ty1, tx1):
             return "extra-tokens", f"{sql!r}: token {(ty1, tx1)} where {(ty0, tx0)} was expected"
     return None
@@ -1012,6 +1102,8 @@ def consider(chk: Check, d, kind, v, opts, variant=0) -> bool:
     if res is None:
         return False
     # a defect of the plain literal / identifier reached through another API is reported as the plain one
+    if kind.startswith("identifier-") and oracle(d, "identifier", v, {}, 0) is not None:
+        return consider(chk, d, "identifier", v, {}, 0)
     if kind in ("national", "raw", "byte", "unicode", "builder"):
         for k2 in ("string", "identifier"):
             if k2 == "identifier" and kind != "builder":
@@ -1027,6 +1119,12 @@ def consider(chk: Check, d, kind, v, opts, variant=0) -> bool:
 
 # ---- statement-level compositions: several literal kinds in ONE .sql() call / ONE reused Generator instance -------------
 LIT_KINDS = ["string", "identifier", "national", "raw", "byte", "unicode"]
+
+
+def id_flag_kinds() -> list:
+    """one literal kind per optional flag of exp.Identifier (introspected: today `global_`, `temporary`)"""
+    _, exp, *_ = sg()
+    return ["identifier-" + k for k in sorted(exp.Identifier.arg_types) if k not in ("this", "quoted")]
 _SINGLE_OK: dict = {}
 
 
@@ -1041,7 +1139,7 @@ def single_ok(d, kind, v) -> bool:
 def lit_node(kind, v):
     _, exp, *_ = sg()
     e, types = build(kind, v, 0)
-    if kind == "identifier":
+    if kind == "identifier" or kind.startswith("identifier-"):
         e = exp.column(e)
     return e, types
 
@@ -1072,11 +1170,13 @@ def compare_tokens(want, got, expect: dict, sql):
     if len(got) != len(want):
         return "extra-tokens", f"{sql!r} lexes to {len(got)} tokens {got[:8]}, the same statement with placeholder values to {len(want)}"
     for (ty0, tx0), (ty1, tx1) in zip(want, got):
-        if tx0 in expect and ty0 in expect[tx0][1]:
+        key0 = tx0.lstrip("#") if tx0.lstrip("#") in expect else tx0
+        marker = tx0[:len(tx0) - len(key0)]
+        if key0 in expect and ty0 in expect[key0][1]:
             if ty1 != ty0:
                 return "extra-tokens", f"{sql!r}: token {ty1} where {ty0} was expected"
-            if tx1 != expect[tx0][0]:
-                return "wrong-text", f"{sql!r}: the literal for {expect[tx0][0]!r} lexes back as {tx1!r}"
+            if tx1 != marker + expect[key0][0]:
+                return "wrong-text", f"{sql!r}: the literal for {expect[key0][0]!r} lexes back as {tx1!r}"
         elif (ty0, tx0) != (ty1, tx1):
             return "extra-tokens", f"{sql!r}: token {(ty1, tx1)} where {(ty0, tx0)} was expected"
     return None
@@ -1230,7 +1330,7 @@ def rand_stmt_spec(rng, alpha):
     n = rng.randint(2, 5)
     items = []
     for _ in range(n):
-        kind = rng.choice(["string", "string", "string", "identifier", "national", "raw", "byte", "unicode"])
+        kind = rng.choice(["string", "string", "string", "identifier", "national", "raw", "byte", "unicode"] + id_flag_kinds())
         r = rng.random()
         if r < 0.35:
             v = rng.choice(STMT_ADV)
@@ -1325,6 +1425,13 @@ def api_entries() -> dict:
     E["values(columns)"] = (lambda v: sel("*").from_(exp.values([(1, 2)], alias="t", columns=[v, "b"])), "identifier")
     E["insert(columns)"] = (lambda v: exp.insert("SELECT 1", "t", columns=[v]), "identifier")
     E["Table(to_identifier)"] = (lambda v: sel("a").from_(exp.Table(this=exp.to_identifier(v), db=exp.to_identifier(v))), "identifier")
+    for flag in sorted(exp.Identifier.arg_types):
+        if flag in ("this", "quoted"):
+            continue
+        E[f"Table(Identifier {flag})"] = (lambda v, flag=flag: sel("a").from_(exp.Table(this=exp.Identifier(this=v, quoted=True, **{flag: True}))),
+                                          "identifier")
+        E[f"column(Identifier {flag})"] = (lambda v, flag=flag: sel(col(exp.Identifier(this=v, quoted=True, **{flag: True}),
+                                                                  table=exp.Identifier(this=v, quoted=True, **{flag: True}))), "identifier")
     E["Dot/struct field"] = (lambda v: sel(exp.Dot.build([col("s"), exp.to_identifier(v)])), "identifier")
     return _API
 
@@ -1359,7 +1466,7 @@ def oracle_api(d, name: str, v: str, opts: dict | None = None):
         want = toks_of(d, base)
     except Exception as ex:  # noqa
         return "error", f"{name}: the statement for the harmless value {API_BASE!r} does not generate/lex: {type(ex).__name__}"
-    pos = [i for i, (ty, tx) in enumerate(want) if tx == API_BASE and ty in types]
+    pos = [i for i, (ty, tx) in enumerate(want) if tx.lstrip("#") == API_BASE and ty in types]
     if not pos:
         words = API_BASE.split(" ")
         texts = [tx for _, tx in want]
@@ -1383,7 +1490,11 @@ def oracle_api(d, name: str, v: str, opts: dict | None = None):
     relaxed = kind == "identifier" and safe_name(v)   # a safe name may be left unquoted (and may then be a keyword token)
     for i, ((ty0, tx0), (ty1, tx1)) in enumerate(zip(want, got)):
         if i in pos:
-            if relaxed:
+            marker = tx0[:len(tx0) - len(API_BASE)]
+            if marker:
+                if (ty1, tx1) != (ty0, marker + v):
+                    return "wrong-text", f"{name}: {sql!r}: the name {v!r} lexes back as {ty1} {tx1!r}, not {marker + v!r}"
+            elif relaxed:
                 if tx1.lower() != v.lower():
                     return "wrong-text", f"{name}: {sql!r}: the name {v!r} lexes back as {tx1!r}"
             elif ty1 != ty0:
@@ -1433,7 +1544,7 @@ def consider_api(chk: Check, d, name: str, v: str, opts: dict | None = None) -> 
     return True
 
 
-API_ADV = ["first name", "a-b", "x, (SELECT secret FROM creds) AS y", 'a"b', "a'b", "a`b", "a]b", "a\\", "1x", "select", "a.b", "",
+API_ADV = ["first name", "a-b", "x, (SELECT secret FROM creds) AS y", 'a"b', "a'b", "a`b", "a]b", "r\n", "a\\", "1x", "select", "a.b", "",
            "a\nb", "$1", "a--b", "a/*b", "é x", "x' OR 1=1 -- ", "\\' OR 1=1 -- ", "*/ x /*", "a;b"]
 
 
@@ -1477,7 +1588,7 @@ def search(chk: Check, hints: list, budget_s: float) -> None:
         for n in range(0, exh + 1):
             for tup in itertools.product(a, repeat=n):
                 v = "".join(tup)
-                for kind in ("string", "identifier"):
+                for kind in ["string", "identifier"] + (id_flag_kinds() if n <= 2 else []):
                     if len(chk.violations) >= 5:
                         break
                     tried += 1
@@ -1499,7 +1610,7 @@ def search(chk: Check, hints: list, budget_s: float) -> None:
     api_names = list(api_entries())
     for d in order:
         for name in api_names:
-            for v in (API_ADV[:8] if chk.quick else API_ADV):
+            for v in (API_ADV[:9] if chk.quick else API_ADV):
                 if len(chk.violations) >= 5:
                     break
                 tried += 1
@@ -1522,7 +1633,8 @@ def search(chk: Check, hints: list, budget_s: float) -> None:
             chk.case(("st", d, json.dumps(spec, sort_keys=True)), nontrivial=True,
                      sample={"dialect": d, "statement": spec} if tried % 2003 == 0 else None)
             continue
-        kind = rng.choice(["string", "string", "identifier", "identifier", "national", "raw", "byte", "comment", "comment", "builder", "builder"])
+        kind = rng.choice(["string", "string", "identifier", "identifier", "national", "raw", "byte", "comment", "comment", "builder", "builder"]
+                          + id_flag_kinds())
         a = per.get(d or "base", BASE_ALPHA)
         alpha = a if rng.random() < 0.4 else (["/", "*", " ", "a", "+", "-", "\n", "#", "{", "}"] if kind == "comment" and rng.random() < 0.6 else BASE_ALPHA)
         v = rand_text(rng, alpha, 24)
